@@ -88,6 +88,15 @@ CHECKS = {
          "adjacency rule and agreement with d-separation on acyclic graphs are decided end to end by the labelled bounded stand-in: every directed mixed graph with 2-3 nodes x every "
          "query and sampled 4-5 node graphs against networkx d-separation on the canonical DAG.",
          TRUST, TECH + " (triple predicates, sigma classes) + bounded end-to-end check against an oracle", "DESIGN.md §5 C20"),
+ "C16": ("other", "Round-trip clause proved for all mixed graphs (sets/relations, injectivity of generated names): to_latent_variable_dag returns a tagged DAG whose observed nodes and "
+         "edges are exactly the graph's, in which every latent is a parentless node whose children are the two end points of a bidirected edge, one per bidirected edge; "
+         "from_latent_variable_dag reads any tagged DAG back as specified (observed nodes, edges leaving observed nodes, a bidirected edge between distinct children of a latent; "
+         "ValueError iff a node lacks the tag); and composing the two contracts gives back the original graph, nodes without edges included (clauses roundtrip.*). "
+         "Evans simplification (simplify_latent.py mutates a DiGraph while a lazy topological iterator over it is live) is outside the VC generator's subset and is decided by the labelled "
+         "bounded stand-in: idempotence, observed nodes kept, and equality with the latent projection on every DAG with 2-4 nodes x every latent tagging and sampled 5-6 node tagged DAGs. "
+         "The 'consequently' clause (separation / identifiability unchanged) follows from projection equality by Evans 2016 (trusted).",
+         TRUST + "; preconditions: latent names f'{prefix}{i}' are not nodes of the graph, no bidirected self-loops; Variable(f'{prefix}{i}') injective in i; trusted mathematics: Evans 2016",
+         TECH + " (round trip) + bounded exhaustive check of Evans simplification against an independent latent projection", "DESIGN.md §5 C16"),
 }
 NA = {
 }
